@@ -21,11 +21,11 @@ Definition lla_unmarshal (b : slice) : res unit :=
    else if negb ((t =? 1) || (t =? 2)) then Err EOther
    else _ <- slfrom b 2 ;; Ok tt)%res.
 
-(* MTU.unmarshal (:139): int(b[1]*8) - 2 with the uint8 multiplication wrapping *)
+(* MTU.unmarshal (:139, as repaired by 8afc7d0): int(b[1])*8 - 2, MTU field b[4:8] *)
 Definition mtu_unmarshal (b : slice) : res unit :=
   (l1 <- idx b 1 ;;
-   if negb (Z.eqb (Z.of_N (u8 (l1 * 8)) - 2) 6) then Err EOther
-   else _ <- sl b 2 6 ;; Ok tt)%res.
+   if negb (Z.eqb (Z.of_N l1 * 8 - 2) 6) then Err EOther
+   else _ <- sl b 4 8 ;; Ok tt)%res.
 
 (* PrefixInformation.unmarshal (:207) *)
 Definition pi_unmarshal (b : slice) : res unit :=
@@ -58,7 +58,8 @@ Definition ri_unmarshal (b : slice) : res unit :=
      p3 <- idx b 3 ;;
      (* checkPreference((b[3] & 0x18) >> 3): 2 is the reserved value *)
      if N.shiftr (N.land p3 24) 3 =? 2 then Err EOther
-     else _ <- sl b 8 (8 + N.to_nat (pl / 8)) ;; Ok tt)%res.
+     (* b[8 : 8+(int(pl)+7)/8] (as repaired by 8afc7d0) *)
+     else _ <- sl b 8 (8 + N.to_nat ((pl + 7) / 8)) ;; Ok tt)%res.
 
 (* RecursiveDNSServer.unmarshal (:405) *)
 Fixpoint rdnss_servers (n : nat) (i : nat) (value : slice) : res unit :=
@@ -84,7 +85,7 @@ Definition raw_unmarshal (b : slice) : res slice :=
   else
     (_ <- idx b 0 ;;
      l1 <- idx b 1 ;;
-     let l := (Z.of_N (u8 (l1 * 8)) - 2)%Z in
+     let l := (Z.of_N l1 * 8 - 2)%Z in   (* int(r.Length)*8 - 2 (as repaired by c4022d7) *)
      tail <- slfrom b 2 ;;
      if negb (Z.eqb l (Z.of_nat (len tail))) then Err EOther
      else Ok (of_bytes (firstn (Z.to_nat l) (arr tail))))%res.
